@@ -357,7 +357,7 @@ Proof. apply wf_parts. Qed.
 Lemma ws_ok_parts p w : ws_ok a p w = true ->
   ws_anc a (fuelw a) (p_name p) (w_inh w) <> None /\ forallb (stmt_ok a p w) (w_items w) = true.
 Proof.
-  unfold ws_ok. rewrite !andb_true_iff. intros [[[[[[[Hanc _] _] _] _] _] _] Hst]. split; auto.
+  unfold ws_ok. rewrite !andb_true_iff. intros [[[[[[[[Hanc _] _] _] _] _] _] _] Hst]. split; auto.
   destruct (ws_anc a (fuelw a) (p_name p) (w_inh w)); discriminate.
 Qed.
 
